@@ -374,7 +374,7 @@ def run(prop, a, seed, scratch, t_start):
     for h in names:
         r = recs[h]
         v, inc, cs, cu = classify(r, byname[h].required)
-        stt = r["stats"]
+        stt = r["stats"] or {}
         solver_s += stt.get("runtime_solver_s", 0) or 0
         symex_s += stt.get("runtime_symex_s", 0) or 0
         vccs += stt.get("vccs_generated", 0) or 0
@@ -503,8 +503,8 @@ def write_evidence(prop, a, seed, recs, byname, viols, known_hits, incon, t_star
             "query": h, "what": hb.what if hb else "", "bounds": hb.bounds if hb else "",
             "status": r["status"], "checks": len(r["checks"]),
             "covers_satisfied": sum(1 for c in r["checks"] if (c.get("status") or "").upper() == "SATISFIED"),
-            "vccs": r["stats"].get("vccs_generated"), "solver_s": r["stats"].get("runtime_solver_s"),
-            "symex_s": r["stats"].get("runtime_symex_s"), "duration_ms": r["duration_ms"]})
+            "vccs": (r["stats"] or {}).get("vccs_generated"), "solver_s": (r["stats"] or {}).get("runtime_solver_s"),
+            "symex_s": (r["stats"] or {}).get("runtime_symex_s"), "duration_ms": r["duration_ms"]})
     ev = {
         "property_id": prop,
         "tier": a.tier,
